@@ -141,6 +141,73 @@ type schedChooser struct {
 	// budget of preemptions (-1 unlimited): after it is used up the current task
 	// always continues while runnable (bounded-preemption exploration).
 	preemptBudget int
+	// pct: priority scheduling (after PCT, Burckhardt et al. 2010). Every task has a random priority
+	// derived from (pctSeed, task id); the runnable task with the highest priority runs; at each of
+	// the drawn change points (counted in scheduling decisions) the task that would run is demoted
+	// below every other task. A low-priority task thus stands still for as long as anything else
+	// can run: the "slow thread" that sticky and uniform policies practically never produce.
+	pct       bool
+	pctSeed   uint64
+	pctPoints map[int]bool
+	pctStep   int
+	pctLow    map[string]uint64 // demoted tasks: id -> priority (small values, decreasing)
+	pctNext   uint64
+}
+
+//go:norace
+func (c *schedChooser) prio(id string) uint64 {
+	if p, ok := c.pctLow[id]; ok {
+		return p
+	}
+	h := c.pctSeed
+	for i := 0; i < len(id); i++ {
+		h = (h ^ uint64(id[i])) * 0x100000001b3
+	}
+	h ^= h >> 29
+	h *= 0xbf58476d1ce4e5b9
+	h ^= h >> 32
+	return h | 1<<63 // above every demoted task
+}
+
+// ChooseTask implements simrt.TaskChooser.
+//
+//go:norace
+func (c *schedChooser) ChooseTask(kind string, ids []string) int {
+	if !c.pct {
+		return c.Choose(kind, len(ids))
+	}
+	return c.t.DrawWith(len(ids), func(r *rng) int {
+		c.pctStep++
+		best := 0
+		for i := range ids {
+			if c.prio(ids[i]) > c.prio(ids[best]) {
+				best = i
+			}
+		}
+		if c.pctPoints[c.pctStep] {
+			// change point: demote the task that would run, run the next best
+			c.pctNext--
+			c.pctLow[ids[best]] = c.pctNext
+			best = 0
+			for i := range ids {
+				if c.prio(ids[i]) > c.prio(ids[best]) {
+					best = i
+				}
+			}
+		}
+		return best
+	})
+}
+
+//go:norace
+func newPCT(seed uint64) *schedChooser {
+	r := rng{s: seed ^ 0x9c7}
+	c := &schedChooser{pct: true, pctSeed: r.next(), pctPoints: map[int]bool{}, pctLow: map[string]uint64{}, pctNext: 1 << 62, stickyDen: 1, preemptBudget: -1}
+	horizon := []int{30, 100, 300, 1000, 5000}[r.intn(5)]
+	for d := r.intn(4); d > 0; d-- {
+		c.pctPoints[1+r.intn(horizon)] = true
+	}
+	return c
 }
 
 //go:norace
